@@ -45,7 +45,7 @@ def write_replay(prop: str, v: dict) -> str:
             'property': prop,
             'phase': v.get('phase'),
             'target': v.get('target'),
-            'x64': bool(v.get('x64')),
+            'x64': 'late' if v.get('x64_mode') == 'late' else bool(v.get('x64')),
             'case': v.get('case'),
             'ctx': v.get('ctx', {}),
             'kind': v.get('kind'),
@@ -90,6 +90,41 @@ def report(prop: str, violations: list[dict]) -> tuple[int, int]:
     if unknown:
         print(f'[{prop}] {len(unknown)} violation(s) in total, by kind: {per_kind}')
     return len(unknown), sum(len(v) for v in by_sig.values())
+
+
+TIMEOUT_KINDS = ('did-not-terminate', 'nontermination', 'timeout')
+
+
+def confirm_timeouts(violations: list[dict], ctx: dict) -> tuple[list[dict], int]:
+    """A watchdog that fired is only a violation if it fires again when the case is run alone in a fresh process: a
+    genuine non-termination is deterministic, a stalled machine is not.  Returns (kept violations, #not reproduced)."""
+    kept, transient = [], 0
+    for v in violations:
+        if v.get('kind') not in TIMEOUT_KINDS or transient + sum(1 for k in kept if k.get('kind') in TIMEOUT_KINDS) >= 8:
+            kept.append(v)
+            continue
+        pools = Pools(1)
+        try:
+            c = dict(ctx)
+            c.update(v.get('ctx') or {})
+            res = run_phase(pools, {'name': v['phase'], 'target': v['target'], 'cases': [v['case']], 'x64': v.get('x64_mode', v.get('x64')), 'chunk': 1}, c, 0,
+                            log=lambda *_: None)
+        finally:
+            pools.close()
+        again = [w for w in res.get('violations', []) if w.get('kind') in TIMEOUT_KINDS]
+        if again:
+            kept.append(v)
+        else:
+            transient += 1
+            print(f'[note] a watchdog fired for case {json.dumps(_jsonable(v.get("case")))[:200]} but the case completes when run alone in a fresh '
+                  f'process: not a non-termination (stalled machine), not reported')
+            for w in res.get('violations', []):
+                w.setdefault('phase', v['phase'])
+                w.setdefault('target', v['target'])
+                w.setdefault('x64', v.get('x64'))
+                w.setdefault('ctx', v.get('ctx') or {})
+                kept.append(w)
+    return kept, transient
 
 
 def run_replay(prop: str, path: str, jobs: int) -> int:
@@ -162,6 +197,7 @@ def main(argv=None) -> int:
                 v.setdefault('phase', ph['name'])
                 v.setdefault('target', ph['target'])
                 v.setdefault('x64', bool(ph.get('x64')))
+                v.setdefault('x64_mode', ph.get('x64', False))
                 v.setdefault('ctx', ph.get('ctx') or {})
             results[ph['name']] = res
         fin = mod.finalize(results, args.tier, seed)
@@ -179,6 +215,11 @@ def main(argv=None) -> int:
     for res in results.values():
         violations += res.get('violations', [])
     violations += fin.get('violations', [])
+    try:
+        violations, transient = confirm_timeouts(violations, ctx)
+    except HarnessError as e:
+        print(f'HARNESS-ERROR {e}', file=sys.stderr)
+        return 2
     if args.dump:
         with open(args.dump, 'w') as f:
             json.dump(_jsonable(violations), f)
@@ -186,6 +227,7 @@ def main(argv=None) -> int:
     wall = time.time() - t0
     cov = fin['coverage']
     # mc/vid.py: calls of id() made by the furax sources (answered adversarially); zero on a tree that keeps no id-keyed tables
+    cov['watchdog_timeouts_not_reproduced'] = transient
     cov['library_id_calls_intercepted'] = sum(int(r.get('vid_calls', 0)) for r in results.values())
     cov['library_ids_reused_adversarially'] = sum(int(r.get('vid_reused', 0)) for r in results.values())
     if not args.no_evidence:
